@@ -1,11 +1,41 @@
 # -*- coding: utf-8 -*-
 
-from typing import Any, Dict, List, Optional
+from typing import Any, Dict, List, Mapping, Optional, Sequence
 
 from ..exc import ValidationError
-from ..lang.ast import Document, Field, OperationDefinition
+from ..lang.ast import (
+    Document,
+    FragmentDefinition,
+    OperationDefinition,
+    Selection,
+)
 from ..schema import Schema
-from .collect_fields import selected_fields
+from .collect_fields import collect_fields_untyped
+
+
+def _selection_depth(
+    selections: Sequence[Selection],
+    fragments: Mapping[str, FragmentDefinition],
+    variables: Mapping[str, Any],
+) -> int:
+    """
+    Length of the longest field path through a selection set, traversing
+    fragments at any level and merging the sub-selections of fields sharing a
+    response key. Returns 0 when no field is selected.
+    """
+    depth = 0
+    collected = collect_fields_untyped(selections, fragments, variables)
+    for fields in collected.values():
+        children = [
+            child
+            for field in fields
+            if field.selection_set is not None
+            for child in field.selection_set.selections
+        ]
+        depth = max(
+            depth, 1 + _selection_depth(children, fragments, variables)
+        )
+    return depth
 
 
 class MaxDepthValidationRule:
@@ -72,16 +102,12 @@ class MaxDepthValidationRule:
             ):
                 continue
 
-            paths = (
-                p
-                for f in op.selection_set.selections
-                if isinstance(f, Field)
-                for p in selected_fields(
-                    f, fragments=fragments, variables=variables, maxdepth=None,
+            depth = (
+                _selection_depth(
+                    op.selection_set.selections, fragments, variables
                 )
+                - 1
             )
-
-            depth = max(x.count("/") + 1 for x in paths)
 
             if depth > self.max_depth:
                 errors.append(
